@@ -12,8 +12,8 @@ lean/SigmaVerif/Model/Load.lean); on documents the model claims (`inDomain`) the
 the collecting outcome and the ordered list of collected error classes must coincide with the
 implementation's — a disagreement is reported as model drift (diagnostic, not a violation)."""
 from __future__ import annotations
-import copy, random, sys
-from .common import Verdict, outcome_of_exception, cps
+import copy, os, random, sys
+from .common import WORK, Verdict, outcome_of_exception, cps
 
 ID = "C07"
 GEN = ["LoadGuards"]
@@ -349,6 +349,12 @@ def gen_cases(tier, seed, gen, effort):
               [{"action": "bogus"}], [{"action": "repeat"}], [5], ["str"], [None], [{"action": "reset"}, {"title": "x"}]]:
         cases.append({"kind": "collection", "doc": v, "mut": "collection"})
     # cases carry the document in the portable encoding (replayable: non-string keys, inf/nan survive)
+    # rule sets loaded from files (load_ruleset): one file with the documents of a collection case next to a valid file; the errors
+    # of every file - also of a file that holds no rule at all - reach the merged collection
+    colls = [c for c in cases if c["kind"] == "collection" and isinstance(c["doc"], list)]
+    for c in rnd.sample(colls, min(len(colls), (150 if not thorough else 1500) * effort)) + \
+            [{"doc": v, "mut": "fixed"} for v in ([5], ["str"], [None], [{"action": "bogus"}], [[1, 2]], [{"action": "bogus"}, 5], [], [RULE_], [dict(RULE_, level="bogus")])]:
+        cases.append({"kind": "ruleset", "doc": [[dict(RULE_, title="valid one")], c["doc"]], "mut": "ruleset:" + c["mut"].split(":")[0]})
     return [{"kind": c["kind"], "show": repr(c["doc"])[:100], "mut": c["mut"], "doc": penc(c["doc"])} for c in cases], False
 
 
@@ -358,6 +364,18 @@ def load(kind, doc, collect):
     from sigma.filters import SigmaFilter
     from sigma.collection import SigmaCollection
     doc = copy.deepcopy(doc)
+    if kind == "ruleset":
+        import shutil, yaml
+        d = os.path.join(WORK, f"c07rs_{os.getpid()}")        # the same path for the strict and the collecting load: messages name the file
+        shutil.rmtree(d, ignore_errors=True)
+        os.makedirs(d)
+        try:
+            for i, docs in enumerate(doc):
+                with open(os.path.join(d, f"f{i}.yml"), "w") as f:
+                    yaml.safe_dump_all(docs, f)
+            return SigmaCollection.load_ruleset([d], collect_errors=collect)
+        finally:
+            shutil.rmtree(d, ignore_errors=True)
     if kind == "rule":
         return SigmaRule.from_dict(doc, collect_errors=collect)
     if kind == "corr":
@@ -451,6 +469,8 @@ def enc(j):
 
 
 def make_request(case, impl, gen):
+    if case["kind"] == "ruleset":
+        return {"op": "ping"}          # file loading is not modelled: judged on the real code only
     return {"op": "load.case", "kind": case["kind"], "doc": enc(case["doc"])}
 
 
@@ -458,6 +478,9 @@ def judge(case, impl, reply):
     """The deciding judgement on the real code (`judge_impl`), then the model comparison."""
     v = judge_impl(case, impl)
     if v.status == "violation" and not v.finding:
+        return v
+    if case["kind"] == "ruleset":
+        v.tags = tuple(v.tags) + ("model:not-modelled",)
         return v
     dom = "inDomain" if reply["inDomain"] else "outOfDomain"
     v.tags = tuple(v.tags) + (f"model:{dom}", f"model:{case['kind']}:{dom}")
